@@ -86,6 +86,8 @@ class NotAndMacro(Macro):
 
     def eval(self, args, prevs):
         goal, pt0 = Or(*args), prevs[0]
+        if not pt0.prop.is_not():
+            raise VeriTException("not_and", "premise should be a negation")
         conj_atoms = pt0.prop.arg.strip_conj()
         disj_atoms = goal.strip_disj()
         if len(conj_atoms) != len(disj_atoms):
